@@ -97,6 +97,7 @@ inductive DExpr where
       analytic functions, validation …) plug in as functions on evaluated datasets. -/
   | app1 (f : DS → R DS) (d : DExpr)
   | app2 (f : DS → DS → R DS) (a b : DExpr)
+  | app3 (f : DS → DS → DS → R DS) (a b c : DExpr)
   deriving Inhabited
 
 def outName (meas : List String) (out : Option String) (m : String) : String :=
@@ -217,6 +218,7 @@ def evalD (env : Env) : DExpr → R DS
       pure { x with rows := x.rows.filter (fun r => !keyIn x.ids (y.rows.map (·.key x.ids)) r) }
   | .app1 f d => do f (← evalD env d)
   | .app2 f a b => do f (← evalD env a) (← evalD env b)
+  | .app3 f a b c => do f (← evalD env a) (← evalD env b) (← evalD env c)
   | .symdiff a b => do
       let x ← evalD env a
       let y ← evalD env b
